@@ -36,6 +36,7 @@ func mapContract(n datamodel.Node, alphabet []string, viol func(sig, detail stri
 	}
 	yielded := map[string][]string{}
 	var seq []kv
+	var keptK, keptV []datamodel.Node
 	count := int64(0)
 	for !it.Done() {
 		if count > length+8 {
@@ -60,6 +61,20 @@ func mapContract(n datamodel.Node, alphabet []string, viol func(sig, detail stri
 		}
 		yielded[ks] = append(yielded[ks], l.String())
 		seq = append(seq, kv{ks, l.String()})
+		keptK, keptV = append(keptK, k), append(keptV, v)
+	}
+	// yielded nodes are values: held until the iteration is over they still
+	// say what they said when they were yielded
+	for i := range keptV {
+		ks, _ := keptK[i].AsString()
+		after := "error"
+		if l, err := keptV[i].AsLink(); err == nil {
+			after = l.String()
+		}
+		if i < len(seq) && (ks != seq[i].K || after != seq[i].V) {
+			viol("contract-yielded-value-changes", fmt.Sprintf("pair #%d was yielded as %s=%s; after the iteration the same nodes say %s=%s", i+1, seq[i].K, seq[i].V, ks, after))
+			break
+		}
 	}
 	if count != length {
 		viol("contract-length", fmt.Sprintf("iteration yielded %d pairs, Length()=%d", count, length))
